@@ -14,6 +14,8 @@ import (
 func init() { register("C05", checkC05) }
 
 func checkC05(p *load.Program, r *kit.Report) {
+	r.Rule("ABORT-THEN-WAIT", "after close(abort) synchronizeBlocks ends a round successfully only after it received the request's completion value", 1)
+	checkAbortThenWait(p, r, "ABORT-THEN-WAIT")
 	importRules(p, r, "C04", "a download that was cancelled because another one finished the block (or the block was orphaned) must not process the block again: the confirmation stage lies behind a cancellation test made after the last transaction", 1, nil, "CANCEL-BEFORE-CONFIRM")
 	importRules(p, r, "C16", "a block is marked complete (and the next one requested) only after a download of it finished without error: the error must travel from the handler through Run and the on-complete thread unchanged", 3, nil, "RESULT-FLOW")
 	r.Rule("TRIGGER-RESTARTS", "TriggerBlockSynchronize leaves the work to the registered round only behind IsComplete() == false of its thread", 1)
